@@ -188,7 +188,19 @@ def op_verif_run(a):
     return {"outs": outs, "dicts": dicts}
 
 
+# ---- key "fac" (not read by the model op): {"name": <factory of props/c11.py FACTORIES>, "p": <its values>} - the factory is
+#      called several times, one result is modified through its public setters / attributes, the other results and a later
+#      call must show what they showed (core.factory_independent); the verif_key line is the carrier ----
+C16_FACTORIES = (["RequestId.empty()", "RequestId.from_sp_header(header)", "RequestId.from_pus_tc(tc)",
+                  "Service1Tm(apid, subservice, timestamp)", "PacketFieldEnum.with_byte_size(n, value)", "PusTc.empty()"]
+                 + [f"{n}(apid, tc, ...)" for n in _HELPERS.values()])
+
+
 def op_verif_key(a):
+    fac = a.get("fac")
+    if fac:
+        import props.c11 as c11       # the table of factory probes lives with the mutation property
+        c11.op_factory({"factory": fac["name"], "p": fac["p"]})
     f = a["id"]
     r = _req(f)
     k = int(r.as_u32())
@@ -407,6 +419,12 @@ class C16(Prop):
             n_tc = rng.randint(8, 40)
             ids, steps = random_history(rng, n_tc, 3 * n_tc, 0.5, 0.02, 0.3)
             yield run_case(ids, steps, "random-many-tcs")
+        # --- request ids / reports that come from the library's factories are objects of their own (key "fac") ---
+        import props.c11 as c11
+        for _ in range(20 if thorough else 3):
+            for name in C16_FACTORIES:
+                yield Case({"op": "verif_key", "id": rand_tc_fields(rng, 0.6), "tc": False,
+                            "fac": {"name": name, "p": c11.factory_params(rng)}}, "valid", tag="factory-independence")
 
 
 PROP = C16()
